@@ -1,0 +1,128 @@
+//! Verification hooks, compiled only with the `verif` cargo feature.
+//!
+//! These are thin public wrappers over crate-private items so that an external
+//! test harness can observe format detection, drive the rewindable input
+//! handle with arbitrary programs, and feed the YAML re-encoder, the YAML
+//! chunker and the MessagePack size calculator directly. Nothing here changes
+//! the behavior of the rest of the crate.
+
+use std::borrow::Cow;
+use std::io::{self, BufRead, Read};
+
+use crate::input::{self, Input, Ref};
+use crate::{detect, Format};
+
+/// Returns the answer of format detection for a slice input.
+pub fn detect_slice(input: &[u8]) -> io::Result<Option<Format>> {
+	detect::detect_format(&mut input::Handle::from_slice(input))
+}
+
+/// Returns the answer of format detection for a reader input.
+pub fn detect_reader<R: Read>(input: R) -> io::Result<Option<Format>> {
+	detect::detect_format(&mut input::Handle::from_reader(input))
+}
+
+/// A single operation on a borrowed reference to an input handle.
+#[derive(Clone, Copy, Debug)]
+pub enum RefOp {
+	/// Calls `read` once with a buffer of the given size.
+	Read(usize),
+	/// Calls `prefix` with the given size hint.
+	Prefix(usize),
+}
+
+/// The result of a single [`RefOp`].
+#[derive(Debug)]
+pub enum RefResult {
+	/// The bytes produced by a `read` call.
+	Read(io::Result<Vec<u8>>),
+	/// The bytes returned by a `prefix` call.
+	Prefix(io::Result<Vec<u8>>),
+}
+
+/// The owned input obtained by consuming a [`Handle`].
+pub enum Owned<'i> {
+	Slice(Vec<u8>),
+	Reader(Box<dyn Read + 'i>),
+}
+
+/// A public wrapper over the crate's rewindable input handle.
+pub struct Handle<'i>(input::Handle<'i>);
+
+impl<'i> Handle<'i> {
+	pub fn from_slice(b: &'i [u8]) -> Self {
+		Handle(input::Handle::from_slice(b))
+	}
+
+	pub fn from_reader<R: Read + 'i>(r: R) -> Self {
+		Handle(input::Handle::from_reader(r))
+	}
+
+	/// Borrows the handle once and applies the operations to that borrow.
+	///
+	/// Returns whether the borrow was a slice view, and one result per
+	/// operation. Reads against a slice view consume a local cursor over it.
+	pub fn borrow(&mut self, ops: &[RefOp]) -> (bool, Vec<RefResult>) {
+		let mut input_ref = self.0.borrow_mut();
+		let is_slice = matches!(input_ref, Ref::Slice(_));
+		let mut slice_pos = 0;
+		let mut results = Vec::with_capacity(ops.len());
+		for op in ops {
+			results.push(match *op {
+				RefOp::Read(n) => {
+					let mut buf = vec![0; n];
+					RefResult::Read(match &mut input_ref {
+						Ref::Slice(b) => {
+							let len = n.min(b.len() - slice_pos);
+							buf.truncate(len);
+							buf.copy_from_slice(&b[slice_pos..slice_pos + len]);
+							slice_pos += len;
+							Ok(buf)
+						}
+						Ref::Reader(r) => r.read(&mut buf).map(|len| {
+							buf.truncate(len);
+							buf
+						}),
+					})
+				}
+				RefOp::Prefix(n) => RefResult::Prefix(input_ref.prefix(n).map(<[u8]>::to_vec)),
+			});
+		}
+		(is_slice, results)
+	}
+
+	/// Takes ownership of the input the way streaming formats do.
+	pub fn into_owned(self) -> Owned<'i> {
+		match Input::from(self.0) {
+			Input::Slice(b) => Owned::Slice(b.into_owned()),
+			Input::Reader(r) => Owned::Reader(r),
+		}
+	}
+
+	/// Takes ownership of the input the way slice-only formats do.
+	pub fn into_cow(self) -> io::Result<Vec<u8>> {
+		Cow::<[u8]>::try_from(self.0).map(Cow::into_owned)
+	}
+}
+
+/// Wraps a reader in the YAML re-encoder, detecting its encoding.
+pub fn yaml_encoder<'a, R: BufRead + 'a>(reader: R) -> io::Result<Box<dyn Read + 'a>> {
+	crate::yaml::verif_shims::encoder(reader)
+}
+
+/// Names the YAML stream encoding detected from a prefix.
+pub fn yaml_detect_encoding(prefix: &[u8]) -> &'static str {
+	crate::yaml::verif_shims::detect_encoding(prefix)
+}
+
+/// Runs the YAML chunker over a UTF-8 reader, dropping it after at most `limit`
+/// items. Each item is the text of a document and whether it is a collection.
+pub fn yaml_chunks<R: Read>(reader: R, limit: usize) -> Vec<io::Result<(String, bool)>> {
+	crate::yaml::verif_shims::chunks(reader, limit)
+}
+
+/// Returns the size of the first MessagePack value in the input as computed by
+/// the slice splitter.
+pub fn msgpack_next_value_size(input: &[u8]) -> Result<usize, String> {
+	crate::msgpack::verif_next_value_size(input)
+}
